@@ -400,9 +400,17 @@ class Eval:
             body._defs = d
         return body._defs.get(local, [])
 
-    def _mut_borrow_is_transparent(self, body, tmp_local):
-        """a `&mut X` temporary whose only use is as the receiver of Iterator::next
-        (or rayon/std iterator plumbing) does not change the *collection identity*"""
+    def _mut_borrow_is_transparent(self, body, tmp_local, depth=0):
+        """a `&mut X` temporary whose only use (possibly through a reborrow) is as the receiver
+        of Iterator::next does not change the *collection identity*"""
+        if depth > 3:
+            return False
+        # reborrow `_y = &mut (*tmp)`
+        for bi, si, s in body.stmts():
+            if s["k"] == "assign" and s["rv"]["k"] == "ref" and s["rv"]["mut"]:
+                p = s["rv"]["place"]
+                if p["l"] == tmp_local and len(p["proj"]) == 1 and p["proj"][0]["k"] == "deref" and not s["place"]["proj"]:
+                    return self._mut_borrow_is_transparent(body, s["place"]["l"], depth + 1)
         for bi, t in body.calls():
             for a in t["args"]:
                 if a["k"] in ("move", "copy") and a["place"]["l"] == tmp_local and not a["place"]["proj"]:
